@@ -107,10 +107,12 @@ def line(B, name, inc='absent'):
 
 
 def polygon(B, name, inc='absent'):
+    """built by the real constructor from raw vertices and a (generally non-zero) origin, so that the private fields
+    (_vertices, origin) differ from the public `vertices` exactly as they do in real use"""
     n = B.int(name + '.n')
-    verts = B.new(PIXCOORD, label=name + '.vertices', x=B.array(name + '.vx', (n,)), y=B.array(name + '.vy', (n,)))
-    return B.new(POLYGON, label=name, vertices=verts, _vertices=verts, origin=B.new(PIXCOORD, label=name + '.origin', x=0, y=0),
-                 meta=mk_meta(B, name + '.meta', inc), visual=mk_visual(B, name + '.visual'))
+    raw = B.new(PIXCOORD, label=name + '.raw', x=B.array(name + '.vx', (n,)), y=B.array(name + '.vy', (n,)))
+    return B.construct(POLYGON, name, raw, meta=mk_meta(B, name + '.meta', inc), visual=mk_visual(B, name + '.visual'),
+                       origin=pix(B, name + '.origin'))
 
 
 def polygon_ok(r):
